@@ -75,9 +75,12 @@ func exWithSlack(b, slack []byte) []byte {
 	return backing[:len(b):len(backing)]
 }
 
-func exFmtIP(ip net.IP) string { return "ok " + hx(ip) }
+func exFmtIP(ip net.IP) string { retainBytes(ip); return "ok " + hx(ip) }
 
-func exFmtTeidIP(t uint32, ip net.IP) string { return "ok " + u(uint64(t)) + " " + hx(ip) }
+func exFmtTeidIP(t uint32, ip net.IP) string {
+	retainBytes(ip)
+	return "ok " + u(uint64(t)) + " " + hx(ip)
+}
 
 func exOptU8(s string) *uint8 {
 	if s == "x" {
